@@ -163,6 +163,9 @@ Equality of the per-module output between two different compilations is not comp
     imports(m, ctx);
     associated_imports(m, ctx);
     qualified(m, ctx);
+    // C12.scope (= C09.scope): a named number in a constraint is looked up in the governing type (and the chain of type
+    // references behind it) — a lookup that reaches past it searches the definitions of *every* module compiled alongside
+    super::c09::scope(m, ctx, "C12.scope");
 }
 
 /// definitions are grouped back into modules by their own header's name
